@@ -16,6 +16,7 @@ RULE = ("cases: pairs of addresses, the second derived from the first (inside / 
         "AddressAg in native member syntax, member-in-group with 1..5 members. Oracle: bit algebra inclusion "
         "(exact) - equality for plain addresses, implication for grouped ones. Non-trivial: oracle True, or "
         "False while the two sets intersect; distinct by canonical pair")
+RULE += ". Directed classes added after the seeded-change rounds: 9..12 non-contiguous bits at arbitrary positions; subnet-mask-shaped wildcards; a group below one non-contiguous wildcard; edits the library refuses inside re-address histories; numbered members and questions; a kept object re-addressed after a platform round trip of its group"
 ASSUMPTIONS = ["refsem inclusion algebra; AddrGroup in AddrGroup and 'in' on a non-contiguous member (documented "
                "TypeError) are outside the statement's observables and not asserted"]
 
